@@ -46,7 +46,7 @@ def outline_own_effective(feature, rule, outline):
 def step_status_for(outcome, wip):
     return {
         "pass": "passed", "nest": "passed", "abort": "passed", "fail": "failed", "raise": "error", "interrupt": "error",
-        "raise_timeout": "error",
+        "raise_timeout": "error", "raise_notimpl": "error",
         "convert": "error", "convert_key": "error", "undefined": "undefined", "skip": "skipped",
         "pending": "pending_warn" if wip else "pending",
     }[outcome]
